@@ -306,10 +306,18 @@ class History:
         self.removed.append(arm)
         return self._emit(["remove_arm", arm])
 
-    def warm_start(self):
+    def can_warm(self):
+        return len(self.arms) >= 2
+
+    def warm_start(self, ensure_defined=True):
         draw = self.draw
         nf = draw(st.integers(1, 3))
         feats = [[a, draw(st.lists(st.integers(-2, 2), min_size=nf, max_size=nf))] for a in self.arms]
+        if ensure_defined and sum(1 for _, v in feats if any(v)) < 2:
+            # the documented cosine distance must be defined for at least one pair of arms
+            for i in range(2):
+                if not any(feats[i][1]):
+                    feats[i][1][draw(st.integers(0, nf - 1))] = draw(st.sampled_from([1, -1, 2]))
         q = draw(st.sampled_from([0.0, 0.25, 0.5, 0.75, 1.0, 0.1, 0.9]))
         return self._emit(["warm_start", feats, q])
 
@@ -330,6 +338,8 @@ class History:
                 continue
             if k == "remove_arm" and not self.can_remove():
                 continue
+            if k == "warm_start" and not self.can_warm():
+                continue
             ok.append(k)
         if not ok:
             ok = ["fit"]
@@ -340,3 +350,45 @@ class History:
         for _ in range(n_steps):
             self.step(kinds)
         return self.ops
+
+
+# ------------------------------------------------------------------------------------------------
+# generic histories over every policy pair
+
+TRAIN_KINDS = ["fit", "partial_fit", "partial_fit"]
+ARM_KINDS = ["add_arm", "remove_arm"]
+QUERY_KINDS = ["predict", "predict_expectations"]
+WARM_KINDS = ["warm_start"]
+
+
+def step_any(h, kinds, binarizer_on_add=False):
+    """One op; add_arm may install a new binarizer on a Thompson bandit that already has one."""
+    draw = h.draw
+    ok = [k for k in kinds if not (
+        (k in ("predict", "predict_expectations", "query") and not h.fitted)
+        or (k == "add_arm" and not h.can_add()) or (k == "remove_arm" and not h.can_remove())
+        or (k == "warm_start" and not h.can_warm()))]
+    if not ok:
+        ok = ["fit"]
+    k = draw(st.sampled_from(ok))
+    if k == "add_arm" and binarizer_on_add and h.lp[0] == "ThompsonSampling" \
+            and h.lp[1].get("binarizer") is not None and draw(st.booleans()):
+        return h.add_arm(draw(binarizer_st(h.arms)))
+    return getattr(h, k)()
+
+
+@st.composite
+def history_plan_st(draw, tier="quick", max_steps=12, config_kw=None, hist_kw=None, kinds=None,
+                    prefit_changes=True, start_fitted=True, binarizer_on_add=False):
+    cfg = draw(config_st(**(config_kw or {})))
+    h = History(draw, cfg, **(hist_kw or {}))
+    kinds = kinds or (TRAIN_KINDS + ARM_KINDS + QUERY_KINDS * 2 + WARM_KINDS)
+    if prefit_changes:
+        for _ in range(draw(st.sampled_from([0, 0, 0, 1, 2]))):
+            step_any(h, ARM_KINDS + WARM_KINDS, binarizer_on_add)
+    if start_fitted:
+        h.fit() if draw(st.integers(0, 3)) else h.partial_fit()
+    n = draw(st.integers(1, max_steps))
+    for _ in range(n):
+        step_any(h, kinds, binarizer_on_add)
+    return {"config": cfg, "ops": h.ops, "family": h.family, "d": h.d}
